@@ -537,6 +537,8 @@ def run(chk):
     chk.trust("Python grammar via ast", "np.percentile(x, [lo, hi]) returns the two percentiles in order; np.fromiter consumes `count` items",
               "scipy.stats.norm.cdf is the standard normal CDF (opaque atom)", "the estimators themselves: C19")
     d1(chk, prog)
+    from . import C15
+    C15.low_coverage(chk, prog)  # which bins --drop-low-coverage leaves out of every statistic (C15 LOW rule)
     from . import C07
     C07.d6(chk, prog)            # a segment's bins are looked up per chromosome: the pairing of by_shared_chroms (C07-D6 rule; a .cns covering one chromosome of a multi-chromosome .cnr)
     d3(chk, prog)
